@@ -736,6 +736,8 @@ def monitor_case(c, impl):
                 t = client_terminal(lines)
                 if t.startswith("response"):
                     bad.append("F4: invalid length information (%s) was framed: `%s`" % (c.get("name"), t[:100]))
+                elif not t.startswith("error") and not any(l.startswith("crash") or l == "hang" for l in lines):
+                    bad.append("F4: invalid length information (%s) was not rejected as malformed (outcome `%s`): the client keeps waiting/buffering" % (c.get("name"), t[:60]))
     else:
         for a, lines, want in block_lines(c, impl):
             for l in lines:
@@ -765,6 +767,10 @@ def monitor_case(c, impl):
 
 
 OBLIGATIONS = [
+    {"id": "C15_F1", "theorem": "Iora.C15.F1_exact", "kind": "proved",
+     "statement": "client exactness: interims ++ render m ++ x (Content-Length / chunked with extensions+trailers / no-body) yields exactly status, reason, version, header map and body of m; forceEvict <-> x != []"},
+    {"id": "C15_F1c", "theorem": "Iora.C15.F1_exact_close", "kind": "proved",
+     "statement": "client exactness, close-delimited body: the body is everything up to the peer's close, forceEvict set"},
     {"id": "C15_F2a", "theorem": "Iora.C15.F2_any_segmentation_eq_whole", "kind": "proved",
      "statement": "client: feeding any segmentation through the carried loop state (headerScanPos, ChunkState) = framing the whole stream (resumption: the carried state is a function of the accumulated bytes)"},
     {"id": "C15_F2", "theorem": "Iora.C15.F2_segmentation_independent", "kind": "proved",
@@ -799,11 +805,8 @@ OBLIGATIONS = [
 
 
 def have_model(ctx):
-    """The native model driver of component `http` (per-component drivers; older framework: one `iora_model`)."""
-    try:
-        return os.path.exists(ctx.model_bin("http"))
-    except TypeError:
-        return os.path.exists(ctx.model_bin())
+    """The native model driver of component `http` (one driver per component: iora_model_http)."""
+    return os.path.exists(ctx.model_bin("http"))
 
 
 def gen_all(ctx, quick, scale):
@@ -831,7 +834,7 @@ def run(ctx: Ctx):
     if ok_build:
         ctx.audit(MODULES, OBLIGATIONS)
         if not quick:
-            ctx.leanchecker(MODULES + ["IoraModel.Lemmas.HttpCommon", "IoraModel.Lemmas.HttpClient", "IoraModel.Lemmas.HttpServer",
+            ctx.leanchecker(MODULES + ["IoraModel.Lemmas.HttpCommon", "IoraModel.Lemmas.HttpClient", "IoraModel.Lemmas.HttpServer", "IoraModel.Lemmas.HttpExact", "IoraModel.Model.Http1Spec",
                                        "IoraModel.Model.HttpClientFraming", "IoraModel.Model.HttpServerFraming", "IoraModel.Model.HttpCommon",
                                        "IoraModel.Common.Framing"])
     else:
